@@ -215,27 +215,49 @@ class World:
 	def sig_id(self, j):
 		return self.genome_fields[j][self.id_attr]
 
-	def _write_gdb(self):
+	def _write_gdb(self, path=None, decoy=None):
+		"""decoy: None | 'decoy_first' | 'decoy_last' - the file additionally holds a SECOND genome set ('verif/decoy') that annotates
+		the same Genome rows with another taxonomy (another version of the database kept in one file, which the schema allows);
+		its rows get the lower or the higher primary keys."""
 		from sqlalchemy import create_engine
 		from sqlalchemy.orm import Session
 		from gambit.db.models import Base, ReferenceGenomeSet, Taxon, Genome, AnnotatedGenome
-		engine = create_engine(f'sqlite:///{self.gdb_path}')
+		engine = create_engine(f'sqlite:///{path or self.gdb_path}')
 		Base.metadata.create_all(engine)
 		with Session(engine) as s:
-			gset = ReferenceGenomeSet(key='verif/world', version='1.0', name='verif world', description='synthetic, "quoted", ünï')
-			s.add(gset)
-			tobjs = []
-			for i, t in enumerate(self.taxa):
-				tobjs.append(Taxon(key=f'world/t{i}', name=t.get('name') or f'taxon{i}', rank=t.get('rank'), distance_threshold=t['thr'],
-				                   report=bool(t['report']), ncbi_id=t.get('ncbi_id'), genome_set=gset))
-			for i, t in enumerate(self.taxa):
-				if t['parent'] is not None:
-					tobjs[i].parent = tobjs[t['parent']]
-			s.add_all(tobjs)
-			for j, f in enumerate(self.genome_fields):
-				g = Genome(key=f['key'], description=f['description'], ncbi_db=f['ncbi_db'], ncbi_id=f['ncbi_id'],
-				           genbank_acc=f['genbank_acc'], refseq_acc=f['refseq_acc'])
-				s.add(AnnotatedGenome(genome=g, genome_set=gset, taxon=tobjs[self.w['genomes'][j]['taxon']], organism=f['organism']))
+			gobjs = [Genome(key=f['key'], description=f['description'], ncbi_db=f['ncbi_db'], ncbi_id=f['ncbi_id'],
+			                genbank_acc=f['genbank_acc'], refseq_acc=f['refseq_acc']) for f in self.genome_fields]
+
+			def real_set():
+				gset = ReferenceGenomeSet(key='verif/world', version='1.0', name='verif world', description='synthetic, "quoted", ünï')
+				s.add(gset)
+				tobjs = []
+				for i, t in enumerate(self.taxa):
+					tobjs.append(Taxon(key=f'world/t{i}', name=t.get('name') or f'taxon{i}', rank=t.get('rank'), distance_threshold=t['thr'],
+					                   report=bool(t['report']), ncbi_id=t.get('ncbi_id'), genome_set=gset))
+				for i, t in enumerate(self.taxa):
+					if t['parent'] is not None:
+						tobjs[i].parent = tobjs[t['parent']]
+				s.add_all(tobjs)
+				for j, f in enumerate(self.genome_fields):
+					s.add(AnnotatedGenome(genome=gobjs[j], genome_set=gset, taxon=tobjs[self.w['genomes'][j]['taxon']], organism=f['organism']))
+				s.flush()
+
+			def decoy_set():
+				gset = ReferenceGenomeSet(key='verif/decoy', version='0.9', name='another version', description='same genomes, other taxonomy')
+				s.add(gset)
+				root = Taxon(key='decoy/root', name='Decoy root', rank='genus', distance_threshold=1.0, report=True, genome_set=gset)
+				leaves = [Taxon(key=f'decoy/leaf{j}', name=f'Decoy species {j}', rank='species', distance_threshold=1.0, report=True, genome_set=gset, parent=root)
+				          for j in range(len(gobjs))]
+				s.add_all([root] + leaves)
+				for j, f in enumerate(self.genome_fields):
+					s.add(AnnotatedGenome(genome=gobjs[j], genome_set=gset, taxon=leaves[j], organism='decoy organism'))
+				s.flush()
+			if decoy == 'decoy_first':
+				decoy_set()
+			real_set()
+			if decoy == 'decoy_last':
+				decoy_set()
 			# a genome outside the genome set
 			s.add(Genome(key='world/outside', description='not in the set', genbank_acc='GCA_999999999.1'))
 			s.commit()
@@ -287,9 +309,22 @@ class World:
 		pos = {j: p for p, j in enumerate(self.ref_order)}
 		return sorted(range(len(row)), key=lambda j: (row[j], pos[j]))[:n]
 
-	def load_db(self):
+	def load_db(self, multi=None):
+		"""multi: None (the database directory, through load_from_dir) or 'decoy_first' / 'decoy_last': the genome set 'verif/world'
+		of a file that holds a second genome set over the same genomes, through the library constructor."""
 		from gambit.db.refdb import ReferenceDatabase
-		return ReferenceDatabase.load_from_dir(self.dir)
+		if not multi:
+			return ReferenceDatabase.load_from_dir(self.dir)
+		from gambit.db import file_sessionmaker
+		from gambit.db.models import ReferenceGenomeSet
+		from gambit.sigs.base import load_signatures
+		path = os.path.join(self.dir + '.multi', multi + '.gdb')
+		if not os.path.exists(path):
+			os.makedirs(os.path.dirname(path), exist_ok=True)
+			self._write_gdb(path, decoy=multi)
+		session = file_sessionmaker(path)()
+		gset = session.query(ReferenceGenomeSet).filter_by(key='verif/world').one()
+		return ReferenceDatabase(gset, load_signatures(self.gs_path))
 
 
 def get_world(ctx, w, tag='world'):
